@@ -77,10 +77,10 @@ TraceStep ==
 
 TraceSpec == TraceInit /\ [][TraceStep]_tvars
 
-Progress ==
+TraceProgress ==
     /\ IF l = 1 THEN TLCSet(tid, 0) ELSE TRUE
     /\ IF l - 1 > TLCGet(tid) THEN TLCSet(tid, l - 1) ELSE TRUE
-Report ==
+TraceReport ==
     \A i \in 1..Len(Traces) :
         PrintT(<<"TRACE", i, TLCGet(i), Len(Traces[i].ev)>>)
 
